@@ -4,6 +4,7 @@ Property theorems only; helper lemmas live in `ConfModel.Lemmas.Trie`.
 All statements are for every pattern list and every name (no bound on lengths).
 -/
 import ConfModel.Lemmas.Trie
+import ConfModel.Lemmas.Marked
 namespace ConfModel.Props.C08
 open ConfModel.Trie ConfModel.Glob
 
@@ -154,6 +155,85 @@ theorem old_matcher_witness :
     globMatch ["a", "**", "**"] ["a"] = true ∧ matchOld 4 [["a", "**", "**"]] ["a"] = false := by
   decide
 
+
+/-! ### The marks at work: what `testResults` stores and `report` prints
+
+`trie_eq_glob` is about the matcher.  The property also says *a case is known-failing or known-flaky
+iff it matches such a pattern*: the flags `testResults` keeps per outcome — and from which `report`
+decides between `FAILED` and `INFO … failed (as expected)` — must be the glob verdicts of the
+outcome's own name, whichever API call stored the outcome (`setOutcome`, `assert`, `failed`,
+`failedToStart`, `failRemaining`, peer feedback for a name without an outcome) and whatever happened
+to it afterwards (overwritten, peer feedback merged into it when the report is produced).  The
+statements are for every pattern list and every sequence of API calls (`Marked.Op`), names repeated
+at will. -/
+
+open ConfModel.Marked ConfModel.Report in
+/-- **marks_follow_glob.**  After any sequence of calls, every outcome `report` classifies is
+flagged known-failing iff some `--known-failing` pattern glob-matches its name, and known-flaky iff
+some `--known-flaky` pattern does. -/
+theorem marks_follow_glob (failing flaky : Node) (ops : List Op) (n : String) (o : Outcome)
+    (h : (n, o) ∈ finalOutcomes failing flaky ops) :
+    o.knownFailing = failing.any (fun p => globMatch p (splitName n)) ∧
+    o.knownFlaky = flaky.any (fun p => globMatch p (splitName n)) := by
+  have hf := faithful_final failing flaky ops n o h
+  simp only [marks, trie_eq_glob] at hf
+  exact hf
+
+open ConfModel.Marked ConfModel.Report in
+/-- **info_iff_marked.**  A name is printed `INFO: … failed (as expected)` exactly when its case
+ran and failed (not a set-up error, not a could-not-run) and its name glob-matches a known-failing
+or a known-flaky pattern. -/
+theorem info_iff_marked (failing flaky : Node) (total : Nat) (ops : List Op) (n : String) :
+    n ∈ (markedReport failing flaky total ops).infoNames ↔
+      ∃ o, (n, o) ∈ finalOutcomes failing flaky ops ∧
+        o.setupError = false ∧ o.failure ≠ .none ∧ o.failure ≠ .couldNotRun ∧
+        ((∃ p ∈ failing, globMatch p (splitName n) = true) ∨ (∃ p ∈ flaky, globMatch p (splitName n) = true)) := by
+  have hn : (markedReport failing flaky total ops).infoNames = namesOf isInfoClass (finalOutcomes failing flaky ops) := rfl
+  rw [hn, mem_namesOf]
+  constructor
+  · rintro ⟨o, hm, hc⟩
+    obtain ⟨h1, h2⟩ := marks_follow_glob failing flaky ops n o hm
+    obtain ⟨hs, hf, hr, hk⟩ := (classify_info_iff o).1 hc
+    refine ⟨o, hm, hs, hf, hr, ?_⟩
+    rw [h1, h2] at hk
+    simpa [List.any_eq_true] using hk
+  · rintro ⟨o, hm, hs, hf, hr, hk⟩
+    obtain ⟨h1, h2⟩ := marks_follow_glob failing flaky ops n o hm
+    refine ⟨o, hm, (classify_info_iff o).2 ⟨hs, hf, hr, ?_⟩⟩
+    rw [h1, h2]
+    simpa [List.any_eq_true] using hk
+
+open ConfModel.Marked ConfModel.Report in
+/-- **failed_iff_unmarked.**  A name is printed `FAILED` exactly when (a) it has a failure that is
+not a could-not-run and either it is a set-up error or its name glob-matches no known-failing and
+no known-flaky pattern, or (b) it passed although its name glob-matches a known-failing pattern. -/
+theorem failed_iff_unmarked (failing flaky : Node) (total : Nat) (ops : List Op) (n : String) :
+    n ∈ (markedReport failing flaky total ops).failedNames ↔
+      ∃ o, (n, o) ∈ finalOutcomes failing flaky ops ∧ o.failure ≠ .couldNotRun ∧
+        ((o.failure ≠ .none ∧ (o.setupError = true ∨
+            ((∀ p ∈ failing, globMatch p (splitName n) = false) ∧ (∀ p ∈ flaky, globMatch p (splitName n) = false)))) ∨
+         (o.failure = .none ∧ o.setupError = false ∧ ∃ p ∈ failing, globMatch p (splitName n) = true)) := by
+  have hn : (markedReport failing flaky total ops).failedNames = namesOf isFailedClass (finalOutcomes failing flaky ops) := rfl
+  rw [hn, mem_namesOf]
+  constructor
+  · rintro ⟨o, hm, hc⟩
+    obtain ⟨h1, h2⟩ := marks_follow_glob failing flaky ops n o hm
+    obtain ⟨hr, hk⟩ := (classify_failed_iff o).1 hc
+    refine ⟨o, hm, hr, ?_⟩
+    rw [h1, h2] at hk
+    simpa [List.any_eq_true, List.any_eq_false] using hk
+  · rintro ⟨o, hm, hr, hk⟩
+    obtain ⟨h1, h2⟩ := marks_follow_glob failing flaky ops n o hm
+    refine ⟨o, hm, (classify_failed_iff o).2 ⟨hr, ?_⟩⟩
+    rw [h1, h2]
+    simpa [List.any_eq_true, List.any_eq_false] using hk
+
+/-- The slip this guards against, as a fact about the model: an outcome rebuilt without its
+known-flaky flag when peer feedback is merged in is printed `FAILED`, the faithful one `INFO`. -/
+theorem dropped_flag_witness :
+    ConfModel.Report.classify ⟨.assertion, false, false, true⟩ = .info ∧
+    ConfModel.Report.classify ⟨.assertion, false, false, false⟩ = .failed := by decide
+
 /-! Non-vacuity: concrete instances of the hypotheses above. -/
 example : trieMatch [["a", "**", "**"], ["b", "*"]] ["a"] = true := by decide
 example : trieWhich [["x"], ["a", "**"]] ["a", "b"] = some ["a", "**"] := by decide
@@ -162,5 +242,17 @@ example : validate [["a"]] [["*"]] [] [] [["a"]] = .ambiguous [["a"]] := by deci
 example : validate [["zz"]] [] [] [] [["a"]] = .unmatchedPatterns "known failing" [["zz"]] := by decide
 example : accept [["a", "**"]] [["**", "c"]] ["a", "b"] = true ∧
     accept [["a", "**"]] [["**", "c"]] ["a", "c"] = false := by decide
+
+open ConfModel.Marked ConfModel.Report in
+/-- `marks_follow_glob` / `info_iff_marked` / `failed_iff_unmarked`: outcome, then peer feedback for
+the same name, then the report — `S/x/t` globs the known-flaky pattern `S/*/t`, `S/y/u` globs
+nothing, `Q/z` globs the known-failing `Q/**` and passed. -/
+example :
+    let ops := [Op.outcome "S/x/t" false .assertion, .sideband "S/x/t" "odd wire format",
+                .outcome "S/y/u" false .none, .sideband "S/y/u" "odd wire format", .outcome "Q/z" false .none]
+    let r := markedReport [["Q", "**"]] [["S", "*", "t"]] 3 ops
+    (r.infoNames, r.failedNames, r.ok) = (["S/x/t"], ["S/y/u", "Q/z"], false) ∧
+    ("S/x/t", (⟨.assertion, false, false, true⟩ : Outcome)) ∈ finalOutcomes [["Q", "**"]] [["S", "*", "t"]] ops := by
+  decide
 
 end ConfModel.Props.C08
